@@ -383,8 +383,12 @@ Definition register_pie (v : ver) (owner : str) (now : Z) (s : secret) (l : list
   Ok (mkP (p_class q) (p_value q) (p_alg q) (p_len q) (p_fmt q) (p_kc q) (p_parts q) (p_ident q) (p_thresh q) (p_spm q) (p_prime q)
           (p_sub q) (p_state q) (p_masks q) (p_names q) (p_groups q) (p_asi q) (p_sensitive q) (p_policy q) now (Some owner)).
 
+(* the wire hop of the attribute list: KMIP 2.0 sends an Attributes structure, which has no attribute indices *)
+Definition wire_attrs (v : ver) (l : list tattr) : list tattr :=
+  if ver_ge v (2, 0) then map (fun t => mkTA None (ta_val t)) l else l.
+
 Definition srv_register (v : ver) (owner : str) (now : Z) (s : secret) (l : list tattr) (st : store) : res (store * Z) :=
-  do p <- register_pie v owner now s l;
+  do p <- register_pie v owner now s (wire_attrs v l);
   let u := s_next st in
   Ok (mkS (s_rows st ++ [(u, sql_out p)]) (u + 1) (Some u), u).
 
@@ -423,8 +427,17 @@ Definition pie_attrs (v : ver) (u : Z) (p : pobj) : list rattr :=
 
 Definition srv_attrs (v : ver) (st : store) (u : Z) : res (list rattr) :=
   match find_row u (s_rows st) with None => Err | Some r => Ok (pie_attrs v u (sql_in r)) end.
+(* the client's decoder of a KMIP 2.0 Attributes structure (AttributeValueFactory.create_attribute_value_by_enum) raises
+   NotImplementedError on the Certificate Type tag: the application gets an exception instead of the attributes *)
+Definition client_attrs (v : ver) (l : list rattr) : res (list rattr) :=
+  if ver_ge v (2, 0) && existsb (fun x => Nat.eqb (fst (fst x)) A_CTYPE) l then Err else Ok l.
+Definition get_attributes (v : ver) (st : store) (u : Z) : res (list rattr) := do l <- srv_attrs v st u; client_attrs v l.
+
+(* GetAttributeListResponsePayload keeps the first occurrence of every name *)
+Fixpoint dedup_nat (seen : list nat) (l : list nat) : list nat :=
+  match l with [] => [] | x :: r => if existsb (Nat.eqb x) seen then dedup_nat seen r else x :: dedup_nat (x :: seen) r end.
 Definition srv_attr_list (v : ver) (st : store) (u : Z) : res (list nat) :=
-  do l <- srv_attrs v st u; Ok (map (fun x => fst (fst x)) l).
+  do l <- srv_attrs v st u; Ok (dedup_nat [] (map (fun x => fst (fst x)) l)).
 
 (* ------------------------------------------------------------------ 7. histories *)
 Inductive hop :=
